@@ -311,6 +311,17 @@ fn render_literal(tm: &Tmpl, table: &str, params: &[OV]) -> String {
     out
 }
 
+/// files of `dir` except those of the per-case tables t<N> other than `table`
+fn files_for(dir: &std::path::Path, table: &str) -> BTreeSet<String> {
+    files_of(dir)
+        .into_iter()
+        .filter(|f| {
+            let name = f.rsplit('/').next().unwrap_or(f);
+            let is_case_table = name.starts_with('t') && name[1..].chars().next().map(|c| c.is_ascii_digit()).unwrap_or(false);
+            !is_case_table || name.starts_with(&format!("{table}.")) || name.starts_with(&format!("{table}_"))
+        })
+        .collect()
+}
 fn files_of(dir: &std::path::Path) -> BTreeSet<String> {
     fn walk(d: &std::path::Path, base: &std::path::Path, out: &mut BTreeSet<String>) {
         if let Ok(rd) = std::fs::read_dir(d) {
@@ -461,7 +472,7 @@ fn run_case(tw: &Twin, tm: &Tmpl, val: &Pv, path: Path, table: &str, rep: &mut R
         }
     }
     let check_files = val.class.starts_with("text-inject");
-    let files_before = if check_files { (files_of(&tw.a.dir), files_of(&tw.b.dir)) } else { (BTreeSet::new(), BTreeSet::new()) };
+    let files_before = if check_files { (files_for(&tw.a.dir, table), files_for(&tw.b.dir, table)) } else { (BTreeSet::new(), BTreeSet::new()) };
     let p1 = params_for(tm, val, false);
     let p2 = params_for(tm, val, true);
     let sql = tm.sql.replace("{T}", table);
@@ -504,7 +515,7 @@ fn run_case(tw: &Twin, tm: &Tmpl, val: &Pv, path: Path, table: &str, rep: &mut R
         } else if res_class_eq(&a1, b1).is_some() {
             // diverged already at the first execution: that is the prepared-first case's verdict; stop here
             rep.pruned(1);
-            return None;
+            return None; // (the DDL already ran in both twins)
         }
         if let (Some(a2), Some(b2)) = (&a2, &b2) {
             if let Some(w) = res_class_eq(a2, b2) {
@@ -518,6 +529,9 @@ fn run_case(tw: &Twin, tm: &Tmpl, val: &Pv, path: Path, table: &str, rep: &mut R
                 return Some(Outcome { what: "panic".into(), expected: format!("{} returns", describe(false)), observed: format!("PANIC({p})") });
             }
         }
+    }
+    if let (Some(Res::Err(_)), Some(Res::Err(_))) = (&a2, &b2) {
+        rep.count("cases_both_twins_failed", 1);
     }
     match (&a1, &b1) {
         (Res::Err(_), Some(Res::Err(_))) => rep.count("cases_both_twins_failed", 1),
@@ -539,7 +553,7 @@ fn run_case(tw: &Twin, tm: &Tmpl, val: &Pv, path: Path, table: &str, rep: &mut R
         }
     }
     // 3. schema: the statement created / removed no file, in either twin
-    let files_after = if check_files { (files_of(&tw.a.dir), files_of(&tw.b.dir)) } else { (BTreeSet::new(), BTreeSet::new()) };
+    let files_after = if check_files { (files_for(&tw.a.dir, table), files_for(&tw.b.dir, table)) } else { (BTreeSet::new(), BTreeSet::new()) };
     let ddl_files = dd.is_some();
     if check_files {
         rep.count("injection_probes_with_file_set_check", 1);
@@ -600,6 +614,8 @@ fn run_case(tw: &Twin, tm: &Tmpl, val: &Pv, path: Path, table: &str, rep: &mut R
     None
 }
 
+const CORE: [&str; 9] = ["insert-all", "insert-2-of-3", "insert-positional", "update-set-where-pk", "update-where-value", "delete-where-value", "select-where-value", "select-list", "update-set-literal-where"];
+const MEDIUM: [&str; 20] = ["int-typical", "int-min", "int-max", "float-typical", "float-neg-zero", "float-1e300", "float-nan", "null", "bool-true", "bool-false", "text-plain", "text-quote", "text-two-quotes", "text-qmark", "text-dollar1", "text-nul", "text-inject-drop", "text-2kb", "blob-typical", "blob-00-ff"];
 const REDUCED: [&str; 9] = ["int-typical", "float-typical", "null", "bool-true", "text-plain", "text-quote", "text-inject-drop", "text-2kb", "blob-typical"];
 fn cases(tms: &[Tmpl], vals: &[Pv], thorough: bool) -> Vec<Case> {
     let mut v = Vec::new();
@@ -612,10 +628,17 @@ fn cases(tms: &[Tmpl], vals: &[Pv], thorough: bool) -> Vec<Case> {
                 if tm.only_int && pv.class != "int-typical" {
                     continue;
                 }
-                // quick tier: plan invalidation after DDL and repeated SELECTs do not depend on the value: reduced value set
-                let repeated = matches!(path, Path::PreparedSecond | Path::AfterCreateIndex | Path::AfterAddColumn);
-                if !thorough && !REDUCED.contains(&pv.class) && (matches!(path, Path::AfterCreateIndex | Path::AfterAddColumn) || (repeated && tm.select)) {
-                    continue;
+                // quick tier: the full value set runs on the core templates through execute_with_params and through
+                // prepare+query (textual substitution); elsewhere a medium set (every kind + the quoting specials);
+                // after DDL a reduced set (plan invalidation does not depend on the value)
+                if !thorough {
+                    let repeated = matches!(path, Path::PreparedSecond | Path::AfterCreateIndex | Path::AfterAddColumn);
+                    let ddl = matches!(path, Path::AfterCreateIndex | Path::AfterAddColumn);
+                    let full = (path == Path::Params && CORE.contains(&tm.name)) || path == Path::PreparedQuery;
+                    let ok = if ddl || (repeated && tm.select) { REDUCED.contains(&pv.class) } else if full { true } else { MEDIUM.contains(&pv.class) };
+                    if !ok {
+                        continue;
+                    }
                 }
                 v.push(Case { tmpl: ti, val: vi, path });
             }
@@ -682,7 +705,6 @@ impl Check for C13 {
                     continue;
                 }
             }
-            let t0 = std::time::Instant::now();
             let tw = match setup_twin(&ctx.scratch, &format!("b{bi}")) {
                 Ok(t) => t,
                 Err(e) => {
@@ -691,7 +713,6 @@ impl Check for C13 {
                     return;
                 }
             };
-            rep.count("zz_us_setup_twin", t0.elapsed().as_micros() as u64);
             for (ci, c) in chunk.iter().enumerate() {
                 let (tm, pv) = (&tms[c.tmpl], &vals[c.val]);
                 if let Some(o) = only_t {
@@ -700,9 +721,7 @@ impl Check for C13 {
                     }
                 }
                 rep.begin_case(&format!("{} {} {}", tm.name, pv.class, c.path.name()));
-                let t0 = std::time::Instant::now();
                 let out = run_case(&tw, tm, pv, c.path, &format!("t{ci}"), rep);
-                rep.count("zz_us_run_case", t0.elapsed().as_micros() as u64);
                 rep.bulk(1, 1);
                 rep.count(&format!("cases_path_{}", c.path.name()), 1);
                 rep.count(&format!("cases_kind_{:?}", pv.kind), 1);
@@ -717,6 +736,7 @@ impl Check for C13 {
                         *n += 1;
                         // first manifestation per worker: re-execute in a fresh twin pair
                         let mut sname = s.clone();
+                        let mut batch_only = false;
                         if *n == 1 {
                             rep.count("violations_reexecuted_in_fresh_twins", 1);
                             if let Ok(tw2) = setup_twin(&ctx.scratch, &format!("iso{bi}")) {
@@ -724,11 +744,16 @@ impl Check for C13 {
                                 let again = run_case(&tw2, tm, pv, c.path, "t0", &mut scratch_rep);
                                 if again.map(|x| x.what) != Some(o.what.clone()) {
                                     sname = format!("{s}/batch-only");
+                                    batch_only = true;
                                     rep.count("violations_only_in_batch", 1);
                                 }
                             }
                         }
-                        rep.violation("C13", "twin", &sname, || case_json(tm, pv, c.path), &o.expected, &o.observed);
+                        if batch_only {
+                            rep.violation("C13", "twin", &sname, || json!({"mode": "batch", "batch": bi, "upto": ci, "template": tm.name, "value": pv.class, "path": c.path.name()}), &o.expected, &o.observed);
+                        } else {
+                            rep.violation("C13", "twin", &sname, || case_json(tm, pv, c.path), &o.expected, &o.observed);
+                        }
                     }
                 }
             }
@@ -747,6 +772,33 @@ impl Check for C13 {
     fn replay(&self, ctx: &Ctx, case: &Value, rep: &mut Reporter) {
         std::env::set_var("RUST_BACKTRACE", "0");
         let tms = templates();
+        if case["mode"].as_str() == Some("batch") {
+            // re-run the batch prefix in a fresh twin pair; only the last case is judged
+            let thorough = !ctx.quick();
+            let vals = values(thorough);
+            let all = cases(&tms, &vals, thorough);
+            let bi = case["batch"].as_u64().unwrap_or(0) as usize;
+            let upto = case["upto"].as_u64().unwrap_or(0) as usize;
+            let Some(chunk) = all.chunks(BATCH).nth(bi) else {
+                rep.note("replay: unknown batch");
+                return;
+            };
+            let Ok(tw) = setup_twin(&ctx.scratch, "replay_batch") else {
+                rep.note("replay: twin setup failed");
+                return;
+            };
+            for (ci, c) in chunk.iter().enumerate().take(upto + 1) {
+                let (tm, pv) = (&tms[c.tmpl], &vals[c.val]);
+                let out = run_case(&tw, tm, pv, c.path, &format!("t{ci}"), rep);
+                rep.bulk(1, 1);
+                if ci == upto {
+                    if let Some(o) = out {
+                        rep.violation("C13", "twin", &format!("{}/batch-only", sig(tm, pv, c.path, &o.what)), || case.clone(), &o.expected, &o.observed);
+                    }
+                }
+            }
+            return;
+        }
         let vals = values(true);
         let Some(tm) = tms.iter().find(|t| Some(t.name) == case["template"].as_str()) else {
             rep.note("replay: unknown template");
